@@ -311,3 +311,164 @@ def judge_jobs(ctx, prop, jobs, max_reports=4):
                       % (prop, "raw" if rawf else "typed", f.name, ch, ty, route, k, H.L[k][:100] if k < len(H.L) else "", text, body))
     st["entry_points_after_each_other"] = len(pairs_seen)
     return found
+
+
+# =====================================================================================================================
+# C11: crash-point images of a read/write session on a RE-OPENED file (with and without content behind the audio)
+# =====================================================================================================================
+
+WRITES = [(ty, u) for ty in TYS for u in "if"] + [("raw", "")]
+
+
+def snap_script(rng, f, ch, ty, lowzero, fn, tail, raw_family):
+    """returns (Hist, [(index of the `copy` line, [indices of the lines of the image's reader])], index of `close` of the writer,
+    [indices of the final reader])
+    The writer: re-open SFM_RDWR, move the write pointer to d frames in front of the end, write across the old end with the entry
+    point `fn`, SFC_UPDATE_HEADER_NOW, image; auto update on, write again, image; close; every image and the finished file are opened
+    read-only and read to their end."""
+    H = Hist(rng, f, ch, ty, lowzero, "vio", raw_family)
+    make_file(H, rng.choice([7, 9, 30]), "s" in tail, "p" in tail)
+    H.open("rw")
+    wh = H.h
+    fty, fu = fn
+
+    def wr(k):
+        if fty == "raw":
+            H.L.append("wraw %s %d %s" % (H.h, k * H.bw, _rawbytes(rng, f, k * H.bw)))
+        elif fty == H.ty and not H.raw:
+            H.write(k, unit=fu)
+            return
+        else:
+            v = _vals(rng, fty, k * ch, 0)
+            H.L.append(S.w_line(H.h, fty, fu, k if fu == "f" else k * ch, v))
+        H.wpos += k
+        H.F = max(H.F, H.wpos)
+
+    snaps = []
+    d = rng.choice([0, 1, 2])
+    if rng.random() < 0.5:
+        H.seek(H.F - d, rng.choice([0, 0x20]))
+    else:
+        H.L.append("seek %s %d %d" % (H.h, -d, rng.choice([2, 0x22])))
+        H.wpos = H.F - d
+    wr(d + rng.choice([1, 2, 5, 40]))
+    H.op("cmd %s 1060 0 null" % H.h)
+    H.op("info %s" % H.h)
+    snaps.append([len(H.L), 2])
+    H.op("copy s2 s0")
+    H.op("cmd %s 1061 1 null" % H.h)
+    wr(rng.choice([1, 3, 17]))
+    H.op("info %s" % H.h)
+    snaps.append([len(H.L), 3])
+    H.op("copy s3 s0")
+    if rng.random() < 0.5:
+        # overwrite inside the data in auto mode: the image keeps its length
+        H.seek(1, 0x20)
+        wr(2)
+        snaps.append([len(H.L), 4])
+        H.op("copy s4 s0")
+    iclose = len(H.L)
+    H.close()
+    res = []
+    for (ic, st) in snaps:
+        i0 = len(H.L)
+        hr = st + 1          # reader handles h3.. (h1 made the file, h2 is the writer: a replay runs the reader while the writer is open)
+        H.L.append(("open h%d s%d r fmt=%08x ch=%d sr=8000" % (hr, st, f.word, ch)) if f.major == 0x04 else "open h%d s%d r" % (hr, st))
+        H.L.append(("rraw h%d %d" % (hr, (H.F + 3) * H.bw)) if raw_family else "r h%d %s i %d" % (hr, H.ty, (H.F + 3) * ch))
+        H.L.append("close h%d" % hr)
+        res.append((ic, list(range(i0, len(H.L)))))
+    i0 = len(H.L)
+    H.L.append("open h6 s0 r")
+    H.L.append(("rraw h6 %d" % ((H.F + 3) * H.bw)) if raw_family else "r h6 %s i %d" % (H.ty, (H.F + 3) * ch))
+    H.L.append("close h6")
+    return H, res, iclose, list(range(i0, len(H.L)))
+
+
+def run_c11(ctx):
+    from . import formats
+    rng = ctx.rng
+    quick = ctx.tier == "quick"
+    fs = [f for f in formats.writable_formats(ctx) if f.granular and R.raw_bw(f, 1) and f.major not in (0x04, 0x16, 0x11)]
+    main = (0x01, 0x02, 0x03, 0x0B, 0x13, 0x18, 0x22)
+    seen = set()
+    jobs = []
+    for i, f in enumerate(fs):
+        loss = G.lossless_types(f)
+        tails = ["s", "", "sp"] if f.major in STR_CONTAINERS else ["", "p"]
+        full = f.major in main and f.major not in seen
+        seen.add(f.major)
+        fns = WRITES if (full or not quick) else [WRITES[i % len(WRITES)], WRITES[(i * 5 + 3) % len(WRITES)]]
+        for j, fn in enumerate(fns):
+            rawf = fn[0] == "raw" or not loss
+            ty = fn[0] if fn[0] in loss else (sorted(loss)[(i + j) % len(loss)] if loss else "s16")
+            ch = 1 if (i + j) % 3 else min(2, f.maxch)
+            H, snaps, iclose, final = snap_script(rng, f, ch, ty, loss.get(ty, 0), fn, tails[(i + j) % len(tails)], rawf)
+            jobs.append(("rwsnap-%s-%s%s-%d" % (f.name, fn[0], fn[1], len(jobs)), f, ch, ty, rawf, H, snaps, iclose, final))
+    out = ctx.batch([(j[0], j[5].text()) for j in jobs], clean=True)
+    judge = abslean.Judge(ctx)
+    parts = {}
+    for (name, f, ch, ty, rawf, H, snaps, iclose, final) in jobs:
+        lines = out.get(name, [])
+        if len(lines) < len(H.L) or any(l.startswith(abslean.DEAD) for l in lines):
+            continue
+        g = geom_of(f, ch, ty, "vio", rawf)
+        for k, (ic, idx) in enumerate(snaps):
+            sel = list(range(ic + 1)) + idx
+            judge.add("%s@%d" % (name, k), g, {}, None, [(H.L[i], lines[i]) for i in sel])
+            parts["%s@%d" % (name, k)] = sel
+        sel = list(range(iclose + 1)) + final
+        judge.add("%s@end" % name, g, {}, None, [(H.L[i], lines[i]) for i in sel])
+        parts["%s@end" % name] = sel
+    verdicts = judge.run()
+    st = ctx.notes.setdefault("rdwr_snap", {"sessions": 0, "images": 0, "refused_at_open": 0, "write_entry_points": 0})
+    fnseen = set()
+    reported = set()
+    found = False
+    voc_kf = next((k for k in ctx.known if k["id"] == "KF-VOC-UPDATE" and k.get("status") == "known"), None)
+    voc_still = None
+    for (name, f, ch, ty, rawf, H, snaps, iclose, final) in jobs:
+        lines = out.get(name, [])
+        st["sessions"] += 1
+        ctx.count(len(H.L), tag="rdwr-snap:" + f.name)
+        prob = None
+        if len(lines) < len(H.L) or any(l.startswith(abslean.DEAD) for l in lines):
+            prob = (max(len(lines) - 1, 0), None, None, "transcript ends early: %s" % lines[-1:])
+        else:
+            for key in ["%s@%d" % (name, k) for k in range(len(snaps))] + ["%s@end" % name]:
+                v = verdicts[key]
+                if v.status == "skip":
+                    st["refused_at_open"] += 1
+                    break
+                st["images"] += 1
+                fnseen.add(name.split("-")[-2])
+                if v.first() is not None:
+                    k, tag, text = v.first()
+                    sel = parts[key]
+                    what = "the finished file" if key.endswith("@end") else "a crash-point image"
+                    prob = (sel[k] if k < len(sel) else len(H.L) - 1, tag, key, "%s: Lean predicate Sf.Abs.check, clause `%s`: %s" % (what, tag, text.strip()))
+                    break
+        if not prob:
+            continue
+        if f.major == 0x08 and voc_kf is not None:
+            if voc_still is None:
+                voc_still = bool(ctx.witness_still_fails(voc_kf))
+            if voc_still and prob[1] in ("reopen-frames", "open") and prob[2] and not prob[2].endswith("@end"):
+                ctx.known_finding(voc_kf)       # class: VOC image after a header update; signature: the image's frame count
+                continue
+        key = f.name.split("-")[0]
+        if key in reported or len(reported) >= 4:
+            continue
+        reported.add(key)
+        found = True
+        line, tag, vkey, text = prob
+        if tag:
+            sel = parts[vkey]
+            body = absreplay.header(geom_of(f, ch, ty, "vio", rawf), 0, clause=(tag, len([i for i in sel if i <= line]) - 1)) + "--- script\n" + "\n".join(H.L[i] for i in sel if i <= line) + "\n"
+        else:
+            body = "--- script\n" + "\n".join(H.L[:line + 1]) + "\n"
+        ctx.violation("c11-%s" % name,
+                      "# C11 violated on the implementation's own transcript (read/write session on a re-opened file; header update, crash-point image)\n"
+                      "# format %s, %d channel(s), type %s, write entry point %s\n# at script line %d: %s\n# %s\n%s"
+                      % (f.name, ch, ty, name.split("-")[-2], line, H.L[line][:100] if line < len(H.L) else "", text, body))
+    st["write_entry_points"] = len(fnseen)
+    return found
